@@ -31,14 +31,22 @@ vars  == <<cfg, reqs, codes, redeemed, toks, rts, idts, devs, cnt, viol>>
 Empty == [x \in {} |-> 0]
 Has(f, k) == k \in DOMAIN f
 
-NoTok == [name |-> "none", kind |-> "none", client |-> "none", sub |-> "none", scopes |-> <<>>, aud |-> <<>>]
+\* access-token record of an outcome. Besides what the store bound to the token (client, sub, scopes, aud), the C06 facts:
+\*   lib    - verdict of the library's own verifier (op.VerifyAccessToken with the published key set) for a JWT access token
+\*   iss, jsub, jclient - claims of a JWT access token ; expOK: exp = stored expiry ; fresh: iat <= now <= exp
+\*   sealed - opaque token: "ok" (decrypts under the provider key to storedID:storedSubject, and not under another key)
+NoTok == [name |-> "none", kind |-> "none", client |-> "none", sub |-> "none", scopes |-> <<>>, aud |-> <<>>,
+          lib |-> "none", iss |-> "none", jsub |-> "none", jclient |-> "none", expOK |-> TRUE, fresh |-> TRUE, sealed |-> "none"]
 NoRt  == [name |-> "none", client |-> "none", sub |-> "none", scopes |-> <<>>, aud |-> <<>>, auth |-> "none", root |-> "none"]
+\* ID-token record: claims, sig (signature under the provider's CURRENT signing key), lib (rp.VerifyTokens / rp.VerifyIDToken
+\* against the published key set), life (exp - iat, seconds), fresh (iat <= now <= exp), amr, uclaims (user claims present)
 NoIdt == [name |-> "none", sub |-> "none", aud |-> <<>>, azp |-> "none", nonce |-> "none", iss |-> "none",
-          athash |-> "absent", chash |-> "absent", auth |-> "none", sig |-> "none", uclaims |-> <<>>]
+          athash |-> "absent", chash |-> "absent", auth |-> "none", sig |-> "none", uclaims |-> <<>>,
+          lib |-> "none", life |-> 0, fresh |-> TRUE, amr |-> <<>>]
 NoOut == [class |-> "none", status |-> 0, err |-> "none", doc |-> FALSE, req |-> "none", target |-> "none",
           channel |-> "none", state |-> "none", code |-> "none", at |-> NoTok, rt |-> NoRt, idt |-> NoIdt,
           scope |-> <<>>, sub |-> "none", rotated |-> "none", bare |-> TRUE, dc |-> "none", uc |-> "none",
-          journal |-> <<>>, issuedType |-> "", actor |-> "none"]
+          journal |-> <<>>, issuedType |-> "", actor |-> "none", auth |-> "none", expiresOff |-> 0]
 
 Init0 ==
   /\ reqs = Empty /\ codes = Empty /\ redeemed = {} /\ toks = Empty /\ rts = Empty /\ idts = Empty
@@ -82,12 +90,12 @@ Apply(e) ==
          /\ reqs' = IF o.class = "login"
                     THEN (o.req :> [client |-> a.client, uri |-> a.uri, rtype |-> a.rtype, rmode |-> a.rmode,
                                     scopes |-> Range(a.scopes), state |-> a.state, nonce |-> a.nonce,
-                                    chall |-> a.chall, done |-> FALSE, sub |-> "none", used |-> FALSE]) @@ reqs
+                                    chall |-> a.chall, done |-> FALSE, sub |-> "none", used |-> FALSE, auth |-> "none"]) @@ reqs
                     ELSE reqs
          /\ UNCHANGED <<codes, redeemed, toks, rts, idts, devs>>
     [] e.op = "Login" ->
          /\ reqs' = IF Has(reqs, a.req) /\ o.class = "ok"
-                    THEN [reqs EXCEPT ![a.req].done = TRUE, ![a.req].sub = a.user] ELSE reqs
+                    THEN [reqs EXCEPT ![a.req].done = TRUE, ![a.req].sub = a.user, ![a.req].auth = o.auth] ELSE reqs
          /\ UNCHANGED <<codes, redeemed, toks, rts, idts, devs>>
     [] e.op = "Callback" ->
          /\ codes' = IF o.class = "code" THEN (o.code :> a.req) @@ codes ELSE codes
@@ -367,9 +375,56 @@ Rules(e) ==
     [] e.op = "JWTBearer"    -> RulesJWTBearer(e.args, e.out)
     [] OTHER -> {}
 
+-----------------------------------------------------------------------------
+(* C06: every issued token is well-formed and passes the library's own verifiers. *)
+IssuerName == "issuer"          \* abstract name of the provider's issuer (projection maps the configured issuer URL to it)
+IDTLifetime == 3600             \* seconds, ID-token lifetime of every registered client in this world
+UserClaimsOf(scopes) ==
+  (IF "email" \in scopes THEN {"email", "email_verified"} ELSE {}) \cup
+  (IF "profile" \in scopes THEN {"name", "preferred_username"} ELSE {}) \cup
+  (IF "phone" \in scopes THEN {"phone_number"} ELSE {}) \cup
+  (IF "address" \in scopes THEN {"address"} ELSE {})
+
+\* the client the tokens of a successful event are issued to, and the underlying request's facts (or "any" where the flow has none)
+IssuedFor(e) ==
+  CASE e.op = "Callback" -> IF Has(reqs, e.args.req) THEN reqs[e.args.req].client ELSE "none"
+    [] e.op = "JWTBearer" -> e.args.iss
+    [] OTHER -> e.args.caller
+ReqOf(e) ==
+  CASE e.op = "Callback" /\ Has(reqs, e.args.req) -> reqs[e.args.req]
+    [] e.op = "CodeExchange" /\ Has(codes, e.args.code) /\ Has(reqs, codes[e.args.code]) -> reqs[codes[e.args.code]]
+    [] OTHER -> [none |-> TRUE]
+GrantedScopes(e) ==
+  IF e.out.at.name \notin {"none", "unknown"} THEN Range(e.out.at.scopes)
+  ELSE IF "scopes" \in DOMAIN ReqOf(e) THEN ReqOf(e).scopes
+  ELSE Range(e.out.scope)
+
+RulesIssued(e) ==
+  LET o == e.out  idt == o.idt  at == o.at  c == IssuedFor(e)  r == ReqOf(e)
+      hasIDT == idt.name # "none"
+      hasAT  == at.name # "none"
+      isReq  == "client" \in DOMAIN r IN
+  IF o.class # "tokens" THEN {} ELSE
+  { <<"C06.idt.signed",   hasIDT => idt.sig = "ok">>,
+    <<"C06.idt.verifies", hasIDT => idt.lib = "ok">>,
+    <<"C06.idt.issuer",   hasIDT => idt.iss = IssuerName>>,
+    <<"C06.idt.audience", hasIDT => (c \in Range(idt.aud) /\ idt.azp = c)>>,
+    <<"C06.idt.lifetime", hasIDT => (idt.fresh /\ idt.life = IDTLifetime)>>,
+    <<"C06.idt.at_hash",  hasIDT => (idt.athash # "bad" /\ ((hasAT /\ o.issuedType # "id") => idt.athash = "ok"))>>,
+    <<"C06.idt.c_hash",   hasIDT => idt.chash # "bad">>,
+    <<"C06.idt.request",  (hasIDT /\ isReq) => (idt.sub = r.sub /\ idt.nonce = r.nonce /\ idt.auth = r.auth /\ idt.amr = <<"pwd">>)>>,
+    <<"C06.idt.refresh",  (hasIDT /\ e.op = "Refresh" /\ Has(rts, e.args.rt)) => (idt.sub = rts[e.args.rt].sub /\ idt.auth = rts[e.args.rt].auth)>>,
+    <<"C06.idt.userclaims", hasIDT => Range(idt.uclaims) \subseteq UserClaimsOf(GrantedScopes(e))>>,
+    <<"C06.at.known",     hasAT => at.name # "unknown">>,
+    <<"C06.at.jwt",       (hasAT /\ at.kind = "jwt") => (at.lib = "ok" /\ at.iss = IssuerName /\ at.jsub = at.sub /\ at.jclient = at.client
+                                                         /\ at.expOK /\ at.fresh)>>,
+    <<"C06.at.opaque",    (hasAT /\ at.kind = "opaque") => at.sealed = "ok">>,
+    <<"C06.response.expires", hasAT => o.expiresOff <= 2>>,
+    <<"C06.response.scope",   (hasAT /\ o.scope # <<>>) => Range(o.scope) = Range(at.scopes)>> }
+
 \* rules that apply to every event, whatever the operation (C09 on the server side)
 Universal(e) == { <<"C09.nopanic", e.out.class # "panic">>,
                   <<"C09.oneResponse", e.out.class # "double">> }
 
-Check(e) == {r[1] : r \in {x \in Rules(e) \cup Universal(e) : ~x[2]}}
+Check(e) == {r[1] : r \in {x \in Rules(e) \cup RulesIssued(e) \cup Universal(e) : ~x[2]}}
 =============================================================================
